@@ -96,6 +96,16 @@ Theorem C11_polygon_is_fan : forall (A : Type) (poly : list A), poly_triangles p
 Proof. exact @poly_triangles_fan. Qed.
 Print Assumptions C11_polygon_is_fan.
 
+(* <polygons>: the vcounts derived from the <p> lengths cut the concatenated index back into
+   exactly the rows of each <p>, so the triangulation theorems apply per <p> *)
+Theorem C11_polygons_vcounts : forall (A : Type) k (ps : list (list A)),
+  k > 0 -> Forall (fun p => length p mod k = 0) ps ->
+  polygons_rows k ps = Ok (concat (map (chunk k) ps)) /\
+  split_by (polygons_vcounts k ps) (concat (map (chunk k) ps)) = map (chunk k) ps /\
+  length (concat (map (chunk k) ps)) = total (polygons_vcounts k ps).
+Proof. exact @polygons_split. Qed.
+Print Assumptions C11_polygons_vcounts.
+
 (* ---- non-vacuity *)
 Example C11_strip_nonvacuous :
   strip [10; 11; 12; 13; 14; 15; 16]%N
@@ -114,6 +124,12 @@ Example C11_multi_p_nonvacuous :
   load_expand KStrips 2 [[1; 2; 3; 4; 5; 6; 7; 8]; []; [9; 10]; [11; 12; 13; 14; 15; 16]]%N
   = Ok [([1; 2], [3; 4], [5; 6]); ([5; 6], [3; 4], [7; 8]); ([11; 12], [13; 14], [15; 16])]%N.
 Proof. vm_compute. reflexivity. Qed.
+
+Example C11_polygons_nonvacuous :
+  polygons_vcounts 2 [[1; 2; 3; 4; 5; 6; 7; 8]; []; [9; 10; 11; 12; 13; 14]]%N = [4; 0; 3]
+  /\ polygons_rows 2 [[1; 2; 3; 4; 5; 6; 7; 8]; []; [9; 10; 11; 12; 13; 14]]%N
+     = Ok [[1; 2]; [3; 4]; [5; 6]; [7; 8]; [9; 10]; [11; 12]; [13; 14]]%N.
+Proof. vm_compute. split; reflexivity. Qed.
 
 Example C11_triangulate_nonvacuous :
   let vc := [0; 4; 1; 0; 5; 2; 3] in
